@@ -61,25 +61,27 @@ type frame struct {
 
 // Exec executes one path of one harness.
 type Exec struct {
-	P           *Program
-	B           *Builder
-	X           *Explorer
-	globals     map[*ssa.Global]*Object
-	nextObj     int
-	depth       int
-	steps       int
-	sch         *schedState
-	ghost       map[string]interface{}
-	events      []string // notable events on this path (recovered panics…)
-	gevents     []ghostEvent
-	fresh       map[string]int
-	clockFloor  *Term
-	ctxChildren []*ctxGhost
-	spec        int // >0 while speculatively evaluating a pure region
-	watchObj    map[*Object]*mutexGhost
-	watchMap    map[*MapObj]*mutexGhost
-	watchOn     bool
-	watchReads  bool // also monitor reads of fields that are written somewhere (vSetOpt "watchReads")
+	P             *Program
+	B             *Builder
+	X             *Explorer
+	globals       map[*ssa.Global]*Object
+	nextObj       int
+	depth         int
+	steps         int
+	sch           *schedState
+	ghost         map[string]interface{}
+	events        []string // notable events on this path (recovered panics…)
+	gevents       []ghostEvent
+	fresh         map[string]int
+	clockFloor    *Term
+	ctxChildren   []*ctxGhost
+	spec          int // >0 while speculatively evaluating a pure region
+	watchObj      map[*Object]*mutexGhost
+	watchMap      map[*MapObj]*mutexGhost
+	watchOn       bool
+	lazyTimers    bool
+	pendingTimers []*ChanObj
+	watchReads    bool // also monitor reads of fields that are written somewhere (vSetOpt "watchReads")
 	// hooks
 	fnNames map[*ssa.Function]string
 }
